@@ -386,6 +386,20 @@ COUNTER_CONTRACT = {
 INIT_CTORS = {"zeros", "ones", "full", "full_like", "zeros_like", "ones_like", "copy", "array", "arange"}
 
 
+def init_rule(rep: Report, k: Kernel):
+    """R-INIT: every local array is created by an initialising constructor, a copy or a computed expression; `np.empty`
+    leaves heap content that an index reached before its store (e.g. a wrapped index at a boundary size) would read."""
+    for st in ast.walk(k.node):
+        if isinstance(st, ast.Assign) and isinstance(st.value, ast.Call):
+            f = ast.unparse(st.value.func).split(".")[-1]
+            if f in ("empty", "empty_like"):
+                rep.ob("R-INIT", k.file, k.name, "local arrays are created initialised (results do not depend on previous heap content)", False,
+                       f"`{norm_stmt(st)}` allocates without initialising: a cell read before it is written (boundary sizes, wrapped indices) "
+                       f"makes repeated calls disagree", st)
+    rep.ob("R-INIT", k.file, k.name, "no uninitialised allocation in the kernel", True, "", f"{k.name}: allocations", kind="summary") if not any(
+        o.rule == "R-INIT" and o.function == k.name and not o.ok for o in rep.obls) else None
+
+
 def must_write(rep: Report, k: Kernel, w: BoundsWalker):
     if k.kind != "guvectorize":
         # returned arrays must come from an initialising constructor or another kernel
@@ -497,6 +511,7 @@ def run(repo: Repo, tier: str) -> Report:
         w, prover = st.pop("_walker")
         ncalls += call_preconditions(rep, kernels[name], w, prover)
         must_write(rep, kernels[name], w)
+        init_rule(rep, kernels[name])
         for k_, v in st.items():
             tot[k_] = tot.get(k_, 0) + v
     tot["helper_call_sites"] = ncalls
